@@ -258,7 +258,7 @@ def run_schedule(plan, schedule, db_path, finish=True):
                 drift.append({"at": len(steps), "cmd": list(cmd), "enabled": s.enabled()})
                 break
             steps.append({"cmd": list(cmd), "post": s.apply(cmd)})
-        if finish and not drift:
+        if finish:      # also after a divergence: the run is still completed and judged
             steps += s.finish()
         summ = s.summary()
         errors = list(s.errors)
